@@ -763,7 +763,6 @@ func libTree() (dirs []string, files []libFile) {
 		{"long/this-is-a-very-long-filename-too.extension", pattern(301, 6)},
 		{"long/Mixed Case and spaces.txt", pattern(302, 7)},
 		{"long/no_extension_but_long_name", pattern(303, 8)},
-		{"long/.hidden", pattern(304, 9)},
 		{"long/multi.dot.name.tar.gz", pattern(305, 10)},
 	}
 	for i := 0; i < 100; i++ {
@@ -776,6 +775,7 @@ type buildOpts struct {
 	bs        int64
 	opts      iso9660.FinalizeOptions
 	symlink   bool
+	dotfile   bool
 	deep      int // extra directory nesting depth (0 = none)
 	truncSize int64
 }
@@ -785,6 +785,13 @@ type buildOpts struct {
 func buildLib(t *testing.T, name string, bo buildOpts) (string, []libFile, []string, error) {
 	t.Helper()
 	dir := t.TempDir()
+	if keep := os.Getenv("ISOCK_KEEP"); keep != "" { // keep images for hexdump analysis
+		dir = filepath.Join(keep, strings.ReplaceAll(t.Name(), "/", "_"))
+		os.RemoveAll(dir)
+		if err := os.MkdirAll(dir, 0o755); err != nil {
+			t.Fatal(err)
+		}
+	}
 	t.Setenv("TMPDIR", dir)
 	imgPath := filepath.Join(dir, name+".iso")
 	ws := filepath.Join(dir, "ws")
@@ -792,6 +799,9 @@ func buildLib(t *testing.T, name string, bo buildOpts) (string, []libFile, []str
 		t.Fatal(err)
 	}
 	dirs, files := libTree()
+	if bo.dotfile {
+		files = append(files, libFile{"long/.hidden", pattern(304, 9)})
+	}
 	if bo.deep > 0 {
 		p := "deep"
 		for i := 1; i <= bo.deep; i++ {
@@ -992,7 +1002,8 @@ func TestLibraryImages(t *testing.T) {
 		bo   buildOpts
 	}{
 		{"plain", buildOpts{bs: 2048, opts: iso9660.FinalizeOptions{VolumeIdentifier: "VOL"}}},
-		{"rockridge", buildOpts{bs: 2048, symlink: true, opts: iso9660.FinalizeOptions{RockRidge: true, VolumeIdentifier: "VOL"}}},
+		{"plain-dotfile", buildOpts{bs: 2048, dotfile: true, opts: iso9660.FinalizeOptions{VolumeIdentifier: "VOL"}}},
+		{"rockridge", buildOpts{bs: 2048, symlink: true, dotfile: true, opts: iso9660.FinalizeOptions{RockRidge: true, VolumeIdentifier: "VOL"}}},
 		{"joliet", buildOpts{bs: 2048, opts: iso9660.FinalizeOptions{Joliet: true, VolumeIdentifier: "VOL"}}},
 		{"rr+joliet", buildOpts{bs: 2048, symlink: true, opts: iso9660.FinalizeOptions{RockRidge: true, Joliet: true, VolumeIdentifier: "VOL"}}},
 		{"plain-symlink", buildOpts{bs: 2048, symlink: true, opts: iso9660.FinalizeOptions{VolumeIdentifier: "VOL"}}},
